@@ -148,6 +148,14 @@ func c02Gen(c *vfCtx, emit func(c02Case)) {
 		pairs("snap", tricky, color, "unset")
 		pairs("ssnap", tricky, color, "unset")
 	}
+	// texts that differ only in terminal control sequences (the report itself is made of such sequences when colours are on),
+	// in other control characters, or in invisible/combining code points
+	ctl := []string{"ERROR: disk full", "\x1b[31mERROR\x1b[0m: disk full", "\x1b[33mERROR\x1b[0m: disk full", "\x1b[1;31mERROR\x1b[m: disk full", "ERROR\x1b[0m: disk full",
+		"ERROR\b: disk full", "ERROR\x00: disk full", "ERROR\u200d: disk full", "ERROR\u0301: disk full", "\x1b]0;t\x07ERROR: disk full", "a\nERROR: disk full", "a\n\x1b[31mERROR\x1b[0m: disk full"}
+	for _, color := range []bool{false, true} {
+		pairs("snap", ctl, color, "unset")
+		pairs("ssnap", ctl, color, "unset")
+	}
 }
 
 // c02Equivalent: K1's predicate — the two values differ but become equal once
